@@ -130,6 +130,20 @@ def gen_plan(rng, idx):
         ltfiles['nest.tex'] = {'text': '\\LTinput{nobody.tex}\n'}
         frags.insert(rng.randrange(len(frags) + 1), docgen.frag(
             'ltinput_nested', '\\LTinput{nest.tex}\n', nested=True))
+    if rng.random() < 0.15:
+        # a readable file that itself makes the filter parse another text (a
+        # further readable \LTinput, a package shipping LaTeX-level macros)
+        # stands before everything else: whatever the parser keeps about
+        # "the text being parsed" has gone through two levels by then
+        inner = rng.choice(['\\LTinput{inner.tex}\n', '\\usepackage{xcolor}\n',
+                            '\\usepackage{amsmath}\n\\LTinput{inner.tex}\n',
+                            '\\LTinput{inner.tex}\n\\LTinput{inner.tex}\n'])
+        ltfiles['outer.tex'] = {'text': inner + '\\newcommand{\\outerm}{}\n'}
+        ltfiles['inner.tex'] = {'text': rng.choice([
+            '\\newcommand{\\innerm}{}\n', '', '\\usepackage{babel}\n'])}
+        frags.insert(0, docgen.frag('ltinput_ok', '\\LTinput{outer.tex}\n', [],
+                                    lt=['outer.tex', 'inner.tex'], lt_ok=True,
+                                    chain=True))
     if rng.random() < 0.35 and frags:
         # last line without newline: the mark may have to be split
         last = frags[-1]
@@ -361,6 +375,8 @@ def evaluate(plan):
     if len(diags_bad) > nmarks:
         probes['more_diagnostics_than_marks'] = 1
     probes['entry_' + plan['entry']] = 1
+    if any(fr.get('chain') for fr in plan['frags']):
+        probes['readable_two_level_include_before_the_fault'] = 1
     if plan.get('stdin'):
         probes['cli_text_from_stdin'] = 1
     consumed = sum(v for k, v in fired.items())
